@@ -238,3 +238,11 @@ def run(ck):
     common.import_results(ck, C09, "2", "dispatch_events", "5")
     # .. and a request parked by another source never reaches a ping source (C09.1 / C09.4)
     common.dispatch_infra(ck, "5")
+    # ---- shared clauses demonstrated by seeding round 7 (the property broken from a distant module) --------------
+    from props import common as _c7
+    import importlib as _il
+    _m = lambda n: _il.import_module('props.' + n)
+    _c7.import_results(ck, _m("C05"), "1", "Poll::poll", "5")  # the wait is made on every poll; a due timer does not starve the eventfd
+    _c7.import_results(ck, _m("C02"), "2", "Poll::poll", "5")
+    _c7.import_results(ck, _m("C20"), "4", "increment_version", "5")  # a ping source inserted into a recycled slot keeps its own key
+
